@@ -245,28 +245,31 @@ def _leaves(t):
 def c03_3(ctx):
     hs = _live_handlers(ctx)
     sites = 0
-    for fi in hs.values():
-        paths = stmt_paths(fi.node)
-        limit = 5 if fi.name in ("do_OP_CHECKLOCKTIMEVERIFY", "do_OP_CHECKSEQUENCEVERIFY") else 4
-        guards = []
-        for x in body_nodes(fi.node):
-            if isinstance(x, ast.If) and any(isinstance(s, ast.Raise) for s in x.body):
-                m = re.match(r"^len\((vm\[-1\]|vm\.stack\[-1\])\) > (\d+)$", norm(x.test))
-                if m:
-                    guards.append((x, int(m.group(2))))
-        for c in df.calls_in(fi.node):
-            nm = df.call_name(c) or ""
-            if nm in ("vm.pop_int", "vm.pop_nonnegative"):
+    from sa import modref as _modref
+    lock_ops = ("do_OP_CHECKLOCKTIMEVERIFY", "do_OP_CHECKSEQUENCEVERIFY")
+    # a helper added since the review is read inside the handlers that call it (sa/expand.py): its reads are decided there,
+    # with the bound of that handler
+    roots = {q: fi for q, fi in hs.items() if _modref.is_reviewed(fi)}
+    for q, fi0 in sorted(roots.items()):
+        fi = ctx.func(fi0.module.relpath, q[len(fi0.module.name) + 1:])
+        limit = 5 if fi.name in lock_ops else 4
+        vm = fi.params()[0] if fi.params() else "vm"
+        top_texts = {"len(%s.stack[-1])" % vm, "len(%s[-1])" % vm}
+        w = sym.int_walk(ctx, fi, top_texts)
+        for e in w.effects:
+            if e.kind != "call":
+                continue
+            nm = norm(e.raw.func)
+            if nm in ("%s.pop_int" % vm, "%s.pop_nonnegative" % vm):
                 sites += 1
-                st = _stmt_of(fi.node, c)
-                ok = any(struct_dominates(paths, g, st) and lim <= limit for g, lim in guards)
-                ctx.check(ok, "unbounded-numeric-read:%s" % fi.name, ctx.where(fi, c),
-                          "%s reads a script number with %s() without a preceding `len(top) > %d` rejection: operands longer than %d bytes are accepted where consensus reports a script-number overflow"
-                          % (fi.name, nm, limit, limit), what="%s:%s:L%d" % (fi.name, nm, c.lineno - fi.node.lineno),
-                          sample={"handler": fi.qualname, "read": nm, "bound": limit})
+                lens = sym.may_set(e.reach, U, E)
+                ctx.check(lens.issubset(iv(None, limit)), "unbounded-numeric-read:%s" % fi.name, ctx.where(fi, e.node),
+                          "%s reads a script number with %s() when the operand has length %s: operands longer than %d bytes must be refused first (consensus: script-number overflow)"
+                          % (fi.name, nm, lens.fmt(), limit), what="%s:%s:L%d" % (fi.name, nm, getattr(e.node, "lineno", 0) - fi.node.lineno),
+                          sample={"handler": fi.qualname, "read": nm, "bound": limit, "read_for_lengths": lens.fmt()})
             if nm.endswith("int_from_script_bytes") and fi.module.relpath in (INTOPS, MISCOPS, CHECKSIG, STACKOPS):
                 sites += 1
-                ctx.bad("raw-int-decode:%s" % fi.name, ctx.where(fi, c), "%s decodes a script number directly, bypassing the 4-byte bound" % fi.name)
+                ctx.bad("raw-int-decode:%s" % fi.name, ctx.where(fi, e.node), "%s decodes a script number directly, bypassing the 4-byte bound" % fi.name)
     f = ctx.func(INTOPS, "pop_check_bounds")
     const = ru.const_resolver(ctx, f, set())
     w = GuardWalker(SymbolicAtomizer(ru.subject({"len(vm[-1])", "len(vm.stack[-1])"}), const))
@@ -274,13 +277,14 @@ def c03_3(ctx):
     may, must = reach_sets(ex, lambda e: e.kind == "return", U, E)
     ctx.check(may == iv(None, 4), "bound-is-4-bytes", ctx.where(f), "pop_check_bounds lets operand lengths %s through; consensus limit is 4 bytes" % may.fmt(),
               sample={"function": f.qualname, "subject": "len(vm[-1])", "accepted": may.fmt()})
-    for name in ("do_OP_CHECKLOCKTIMEVERIFY", "do_OP_CHECKSEQUENCEVERIFY"):
+    for name in lock_ops:
         f = ctx.func(MISCOPS, name)
-        w = GuardWalker(SymbolicAtomizer(ru.subject({"len(vm.stack[-1])", "len(vm[-1])"}), const))
-        w.run(f.node.body)
-        reads = [(st, r) for st, r in w.visits if "vm.pop_int()" in norm(st)]
-        ok = len(reads) == 1 and gi.sat_set(reads[0][1], U, E) == iv(None, 5)
-        ctx.check(ok, "bound-is-5-bytes:%s" % name, ctx.where(f), "%s reads its operand for lengths %s; BIP65/112 allow up to 5 bytes" % (name, [gi.sat_set(r, U, E).fmt() for st, r in reads]))
+        vm = f.params()[0]
+        w = sym.int_walk(ctx, f, {"len(%s.stack[-1])" % vm, "len(%s[-1])" % vm})
+        reads = [e for e in w.effects if e.kind == "call" and norm(e.raw.func) == "%s.pop_int" % vm]
+        lens = [sym.may_set(e.reach, U, E) for e in reads]
+        ok = bool(reads) and all(l_ == iv(None, 5) or l_ == iv(0, 5) or l_ == iv(1, 5) for l_ in lens)
+        ctx.check(ok, "bound-is-5-bytes:%s" % name, ctx.where(f), "%s reads its operand for lengths %s; BIP65/112 allow up to 5 bytes" % (name, [l_.fmt() for l_ in lens]))
     # minimal-encoding flag reaches the decoder
     f = ctx.func(BVM, "BitcoinVM.pop_int")
     ctx.check("require_minimal=bool(self.flags & VERIFY_MINIMALDATA)" in norm(f.node) and "int_from_script_bytes(self.pop()" in norm(f.node), "minimaldata-plumbing", ctx.where(f),
@@ -509,7 +513,7 @@ def c03_8(ctx):
     ok = len(un) == 1 and gi.f_equiv(un[0].cond, gi.f_and(("op", "flags & VERIFY_WITNESS"), ("op", "witness_version is None"), ("op", "len(tx_context.witness_solution_stack) > 0")))
     ctx.check(ok, "witness-unexpected", ctx.where(s), "`witness unexpected` is not raised exactly when the script is no witness program and the witness is non-empty (under the WITNESS flag)")
     mal = [e for e in ex if e.kind == "raise" and "not blank" in norm(e.value)]
-    ok = len(mal) == 1 and "len(solution_stack) > 0" in gi.f_opaques(mal[0].cond)
+    ok = any("len(solution_stack) > 0" in gi.f_opaques(e.cond) for e in mal)
     ctx.check(ok, "witness-malleated", ctx.where(s), "a witness program with a non-empty scriptSig stack is not rejected")
     rv = [e for e in ex if e.kind == "return" and isinstance(e.value, ast.Tuple)]
     ok = len(rv) == 1 and norm(rv[0].value.elts[2]) == "flags | VERIFY_CLEANSTACK" and "witness_version == 0" in gi.f_opaques(rv[0].cond)
@@ -537,9 +541,9 @@ def c03_8(ctx):
     t = norm(pc.node)
     ctx.check("if flags & (VERIFY_DERSIG | VERIFY_LOW_S | VERIFY_STRICTENC):" in t and "check_valid_signature(sig_blob)" in t and "if flags & VERIFY_STRICTENC:" in t and
               "check_defined_hashtype_signature(sig_blob)" in t and "if flags & VERIFY_LOW_S:" in t, "signature-encoding-flags", ctx.where(pc), "DERSIG/LOW_S/STRICTENC do not trigger the encoding checks")
-    cg = ctx.func(CHECKSIG, "checksig")
+    cg = ctx.func(CHECKSIG, "check_public_key_flags")
     t = norm(cg.node)
-    ctx.check("if verify_witness_pubkeytype:" in t and "pair_blob[0] not in (2, 3) or len(pair_blob) != 33" in t, "witness-pubkeytype", ctx.where(cg), "WITNESS_PUBKEYTYPE does not require compressed keys")
+    ctx.check("if verify_witness_pubkeytype:" in t and "pair_blob[:1] not in (b'\\x02', b'\\x03') or len(pair_blob) != 33" in t, "witness-pubkeytype", ctx.where(cg), "WITNESS_PUBKEYTYPE does not require compressed keys")
 
 
 # ------------------------------------------------------------------ C03.9
